@@ -217,6 +217,9 @@ func (in *Interp) prepareCall(fr *frame, call *ssa.CallCommon) (fn Value, args [
 	} else {
 		recv := v.(Iface)
 		if recv.T == nil {
+			if os.Getenv("GOSX_TRACE_GLOBALS") != "" {
+				fmt.Fprintln(os.Stderr, "NILIFACE in", fr.fn, "call", call.String(), stackOf(fr))
+			}
 			in.goPanic("runtime error: invalid memory address or nil pointer dereference (method " + call.Method.Name() + " invoked on nil interface)")
 		}
 		if o, ok := recv.V.(*Obj); ok && o != nil && o.Kind != "" {
@@ -277,6 +280,14 @@ func (in *Interp) callSSA(caller *frame, fn *ssa.Function, args []Value, env []V
 	}
 	fr := &frame{in: in, th: th, caller: caller, fn: fn}
 	name := fn.String()
+	if traceCalls {
+		fmt.Fprintf(os.Stderr, "CALL %s %v\n", name, args)
+		for _, a := range args {
+			if p, ok := a.(*Value); ok && p != nil {
+				fmt.Fprintf(os.Stderr, "   *arg = %.300v\n", *p)
+			}
+		}
+	}
 	if fn.Parent() == nil || fn.Synthetic != "" {
 		if ext := intrinsics[name]; ext != nil {
 			in.res.stub(name)
@@ -424,6 +435,9 @@ const (
 )
 
 func (in *Interp) visitInstr(fr *frame, instr ssa.Instruction) continuation {
+	if traceCalls && strings.Contains(fr.fn.Name(), "reset") {
+		fmt.Fprintf(os.Stderr, "  INSTR %s\n", instr.String())
+	}
 	switch instr := instr.(type) {
 	case *ssa.DebugRef:
 
@@ -501,7 +515,7 @@ func (in *Interp) visitInstr(fr *frame, instr ssa.Instruction) continuation {
 			in.goPanic("runtime error: invalid memory address or nil pointer dereference")
 		}
 		in.memAccess(p, true)
-		*p = copyVal(in.get(fr, instr.Val))
+		storeInto(p, copyVal(in.get(fr, instr.Val)))
 
 	case *ssa.If:
 		succ := 1
@@ -1015,7 +1029,9 @@ func (in *Interp) callBuiltin(caller *frame, fn *ssa.Builtin, args []Value) Valu
 			for i := 0; i < n; i++ {
 				tmp[i] = copyVal(s.A[i])
 			}
-			copy(dst.A, tmp)
+			for i := 0; i < n; i++ {
+				storeInto(&dst.A[i], tmp[i])
+			}
 			return mkBV(64, uint64(n))
 		}
 
@@ -1252,4 +1268,5 @@ var noInitPkgs = map[string]bool{
 	"github.com/godaddy/asherah/server/go/api": true,
 }
 
+var traceCalls = os.Getenv("GOSX_TRACE_CALLS") != ""
 var debugAssume = os.Getenv("GOSX_CHECK_ASSUME") != ""
